@@ -168,7 +168,7 @@ def find_cache_stores(ctx, eff, rep, region, table_vars, rule):
     return whitelisted
 
 
-def check_read_through(ctx, eff, rep, region, rule="H3"):
+def check_read_through(ctx, eff, rep, region, rule="H3", whole_only=False):
     """A dict that translation code fills while it runs may be observed half-filled by a concurrent call.  That is
     harmless only for a read-through cache: every function of the regions that looks a key up in it also stores that
     same key when it misses (so a miss costs a recomputation, never a different answer), and nobody looks at the dict
@@ -214,12 +214,14 @@ def check_read_through(ctx, eff, rep, region, rule="H3"):
             skeys = {k for k, _ in stores}
             probs = []
             for k, p in reads:
-                if k not in skeys:
+                if k not in skeys and not whole_only:
                     probs.append("%s looks up key %s but never fills it: a miss during another call's fill gives a different answer" % (g.name, k))
             for nd, p in whole:
                 probs.append("%s uses the dict as a whole (%s): a half-filled dict is observable" % (g.name, unparse(p)[:40] if p is not None else nd.id))
             rep.ob(rule, not probs, uses[0][0], g, construct="uses of the run-time filled dict %s in %s" % (sorted(nm for _m, nm in names), g.name),
-                   how="read-through: every key looked up is stored by the same function on a miss; no whole-dict observation",
+                   how=("no whole-dict observation (length, emptiness, iteration): what earlier calls stored is visible only through key look-ups"
+                        if whole_only else
+                        "read-through: every key looked up is stored by the same function on a miss; no whole-dict observation"),
                    witness="; ".join(sorted(set(probs))[:3]) or None, nontrivial=True, key="read-through/%s/%s" % (g.name, "ok" if not probs else "bad"))
     return n
 
